@@ -357,21 +357,33 @@ def check_reorder(ctx, rid: str) -> None:
              "mapping = argmin over distances between own k-points and the path's k-points", stp, tp[0],
              f"the path mapping does not derive from nearest-coordinate matching (argmin={has_argmin}, "
              f"own kpoints={uses_own}, path kpoints={uses_path})")
-    # argmin axis: mapping must have one entry per *path* point: norm[i_own, j_path] → argmin over axis 0
+    # argmin axis: the distance matrix D[a, b] = |X[a] − Y[b]| comes from `X[:, None, :] − Y[None, :, :]`; the map must have one
+    # entry per PATH point, i.e. argmin must run over the axis indexed by the stored (own) k-points
+    def origin(e: ast.AST) -> str:
+        ex, _, _ = sdu.backward_slice(e, scfg.node(enclosing(spm, e, ast.stmt)))
+        tt = " ".join(norm(x) for x in ex)
+        return "path" if "get_kpoints" in tt else "own" if "self.kpoints" in tt else "?"
+    own_axis = None
+    for e in sl:
+        for sub in ast.walk(e):
+            if isinstance(sub, ast.BinOp) and isinstance(sub.op, ast.Sub) and isinstance(sub.left, ast.Subscript) \
+                    and isinstance(sub.right, ast.Subscript):
+                pat = {norm(x.slice).replace(" ", "").strip("()"): x for x in (sub.left, sub.right)}
+                if set(pat) == {":,None,:", "None,:,:"}:
+                    o0, o1 = origin(pat[":,None,:"].value), origin(pat["None,:,:"].value)
+                    if {o0, o1} == {"own", "path"}:
+                        own_axis = 0 if o0 == "own" else 1
     for e in sl:
         for sub in ast.walk(e):
             if isinstance(sub, ast.Call) and call_name(sub) in ("np.argmin", "numpy.argmin"):
                 ax = [k.value for k in sub.keywords if k.arg == "axis"] + list(sub.args[1:2])
-                # find orientation of the difference: own[:, None] - path[None, :]  → own index is axis 0
-                orient = None
-                for t in texts:
-                    tt = t.replace(" ", "")
-                    if "kpoints[:,None,:]-kpoints_path[None,:,:]" in tt or "[:,None,:]-" in tt and "[None,:,:]" in tt:
-                        orient = 0
-                if ax and isinstance(ax[0], ast.Constant) and orient is not None:
-                    r3.check(ax[0].value == orient, "argmin runs over the axis of the stored k-points", stp, sub,
-                             f"argmin(axis={ax[0].value}) runs over the path axis: the map has one entry per stored "
-                             f"point instead of one per path point")
+                if own_axis is None or not ax or not isinstance(ax[0], ast.Constant):
+                    raise AnalysisError("self_to_path: cannot relate the argmin axis to the distance matrix "
+                                        "`own[:, None, :] - path[None, :, :]`")
+                r3.check(ax[0].value == own_axis, "argmin runs over the axis of the stored k-points (one map entry per path point)",
+                         stp, sub, f"the distance matrix has the stored k-points on axis {own_axis} but argmin runs over axis "
+                         f"{ax[0].value}: `mapping` becomes the inverse permutation (one entry per stored point) and is then used as a "
+                         f"gather index — tabulated values are attached to the wrong path points whenever batches complete out of order")
     # results rebuilt for every key + kpoints replaced
     comp = enclosing(spm, tp[0], ast.DictComp)
     r3.check(comp is not None and norm(comp.generators[0].iter) == "self.results" and not comp.generators[0].ifs,
@@ -436,6 +448,12 @@ SELFTEST = [
       "fire", "R12.3"),
     V("argmin over the wrong axis", TAB, "mapping = np.argmin(norm, axis=0)", "mapping = np.argmin(norm, axis=1)",
       "fire", "R12.3"),
+    V("distance matrix transposed (seeded C12-m2)", TAB, "diff = abs(kpoints[:, None, :] - kpoints_path[None, :, :])",
+      "diff = abs(kpoints_path[:, None, :] - kpoints[None, :, :])", "fire", "R12.3"),
+    V("neutral: distance matrix and argmin both transposed", TAB,
+      "        diff = abs(kpoints[:, None, :] - kpoints_path[None, :, :])\n        diff -= np.round(diff)  # account for periodicity\n        norm = np.linalg.norm(diff, axis=2)\n        mapping = np.argmin(norm, axis=0)",
+      "        diff = abs(kpoints_path[:, None, :] - kpoints[None, :, :])\n        diff -= np.round(diff)  # account for periodicity\n        norm = np.linalg.norm(diff, axis=2)\n        mapping = np.argmin(norm, axis=1)",
+      "silent"),
     V("mapping by position instead of coordinates", TAB, "mapping = np.argmin(norm, axis=0)",
       "mapping = np.arange(len(kpoints_path))", "fire", "R12.3"),
     V("result cleared before the weighted read", RG,
